@@ -33,6 +33,16 @@ var ianaSpecial = []struct{ cidr, ref string }{
 	{"fe80::/10", "RFC 4291 link local"}, {"ff00::/8", "RFC 4291 multicast"},
 }
 
+// ianaGloballyReachable lists the entries of the two special-purpose registries that lie inside one of the blocks above
+// but are marked "Globally Reachable: True": service anycast addresses and protocol blocks that are ordinary routable
+// destinations/sources. A default "private/local" range must not contain any of them.
+var ianaGloballyReachable = []struct{ cidr, ref string }{
+	{"192.0.0.9/32", "RFC 7723 Port Control Protocol anycast"}, {"192.0.0.10/32", "RFC 8155 TURN anycast"},
+	{"2001:1::1/128", "RFC 7723 Port Control Protocol anycast"}, {"2001:1::2/128", "RFC 8155 TURN anycast"},
+	{"2001:3::/32", "RFC 7450 AMT"}, {"2001:4:112::/48", "RFC 7535 AS112-v6"}, {"2001:20::/28", "RFC 7343 ORCHIDv2"},
+	{"2001:30::/28", "RFC 9374 DRIP entity tags"},
+}
+
 func checkC18(w *World, r *Report) {
 	r.Explanation = "Constant audit and structure checks of the client-IP resolvers: every CIDR literal of the default trusted/blacklisted range tables is parsed and must lie inside a block of the " +
 		"IANA special-purpose registries (or multicast / class E), so no globally routable unicast space is trusted by default (this is what caught 192.18.0.0/15); every return of every ClientIP method is " +
@@ -53,7 +63,7 @@ func checkC18(w *World, r *Report) {
 }
 
 func checkC18Ranges(w *World, r *Report, pkg interface{ String() string }) {
-	ru := r.Rule("C18.1", "default ranges are registered special-purpose blocks: every CIDR literal in the package-level range tables of package clientip lies inside a block of the IANA IPv4/IPv6 special-purpose registries, multicast or class E space", 10)
+	ru := r.Rule("C18.1", "default ranges are registered special-purpose blocks: every CIDR literal in the package-level range tables of package clientip lies inside a block of the IANA IPv4/IPv6 special-purpose registries, multicast or class E space, and contains none of the registry entries marked globally reachable", 10)
 	p := w.ByPath[modulePath+"/clientip"]
 	var blocks []netip.Prefix
 	for _, b := range ianaSpecial {
@@ -101,6 +111,18 @@ func checkC18Ranges(w *World, r *Report, pkg interface{ String() string }) {
 							}
 						}
 						ru.Check("range "+lit+" in "+name, w.Pos(call.Pos()), "lies inside a registered special-purpose block", inside != "", orDefault(inside, "not inside any special-purpose block: this is globally routable unicast space"))
+						// and contains no registry entry that is globally reachable
+						var global []string
+						for _, g := range ianaGloballyReachable {
+							gp := netip.MustParsePrefix(g.cidr)
+							if gp.Addr().Is4() == pfx.Addr().Is4() && pfx.Bits() <= gp.Bits() && pfx.Contains(gp.Addr()) {
+								global = append(global, g.cidr+" ("+g.ref+")")
+							}
+						}
+						if inside != "" {
+							ru.Check("globally reachable part of "+lit+" in "+name, w.Pos(call.Pos()), "contains no registry entry marked globally reachable", len(global) == 0,
+								orDefault(strings.Join(global, ", "), "none"))
+						}
 					}
 				}
 			}
@@ -218,6 +240,7 @@ func checkC18Returns(w *World, r *Report, _ any) {
 			})
 		}
 	}
+	checkC18ErrorNonNil(w, r, ru)
 }
 
 func isNilIdent(info *types.Info, e ast.Expr) bool {
@@ -531,5 +554,78 @@ func checkC18EveryItem(w *World, r *Report) {
 			})
 		}
 		ru.Check("list-item loop of "+name, w.Pos(rng.Pos()), "yield is called for every item of the split header line", bad == "", orDefault(bad, "yield post-dominates the loop body entry"))
+	}
+}
+
+// checkC18ErrorNonNil: the SSA half of C18.2. A return (nil, e) is only "an error" if e cannot be nil: e must be a
+// freshly built error, a package-level sentinel, a value tested non-nil, or a phi of such values.
+func checkC18ErrorNonNil(w *World, r *Report, ru *Rule) {
+	cp := modulePath + "/clientip"
+	var nonNil func(fn *ssa.Function, v ssa.Value, at *ssa.BasicBlock, seen map[ssa.Value]bool) (bool, string)
+	nonNil = func(fn *ssa.Function, v ssa.Value, at *ssa.BasicBlock, seen map[ssa.Value]bool) (bool, string) {
+		if seen[v] {
+			return true, ""
+		}
+		seen[v] = true
+		// tested non-nil on the way to the use
+		for _, ft := range factsAtBlock(at) {
+			if bo, ok := ft.Cond.(*ssa.BinOp); ok && isNilConst(bo.Y) && bo.X == v {
+				if (bo.Op == token.NEQ && ft.Val) || (bo.Op == token.EQL && !ft.Val) {
+					return true, ""
+				}
+			}
+		}
+		switch x := v.(type) {
+		case *ssa.Const:
+			if x.IsNil() {
+				return false, "the constant nil"
+			}
+			return true, ""
+		case *ssa.MakeInterface:
+			return true, ""
+		case *ssa.UnOp:
+			if _, isGlobal := x.X.(*ssa.Global); isGlobal && x.Op == token.MUL {
+				return true, "" // package-level sentinel
+			}
+			return false, "loaded from " + valStr(x.X)
+		case *ssa.Call:
+			obj := calleeObj(x)
+			if isFuncNamed(obj, "errors", "Join") {
+				// nil only if every argument is nil
+				for _, el := range sliceElems(x.Call.Args[0]) {
+					if ok, _ := nonNil(fn, el, x.Block(), seen); ok {
+						return true, ""
+					}
+				}
+				return false, "errors.Join of values that may all be nil"
+			}
+			if isFuncNamed(obj, "fmt", "Errorf") || isFuncNamed(obj, "errors", "New") {
+				return true, ""
+			}
+			return false, "result of " + valStr(x)
+		case *ssa.Extract:
+			return false, "an error returned by a call, not tested"
+		case *ssa.Phi:
+			for i, e := range x.Edges {
+				if ok, why := nonNil(fn, e, x.Block().Preds[i], seen); !ok {
+					return false, "on one path it is " + why
+				}
+			}
+			return true, ""
+		}
+		return false, valStr(v)
+	}
+	for _, fn := range w.ModuleFuncs() {
+		if !w.InPkg(fn, cp) || fn.Name() != "ClientIP" || fn.Signature.Recv() == nil || fn.Synthetic != "" {
+			continue
+		}
+		eachInstr(fn, func(in ssa.Instruction) {
+			ret, ok := in.(*ssa.Return)
+			if !ok || len(ret.Results) != 2 || !isNilConst(ret.Results[0]) {
+				return
+			}
+			okk, why := nonNil(fn, ret.Results[1], ret.Block(), map[ssa.Value]bool{})
+			ru.Check("error of a (nil, err) return in "+FuncName(fn), w.InstrPos(ret), "the error cannot be nil (built, sentinel, or tested non-nil on every path)", okk, orDefault(why, "non-nil"))
+		})
 	}
 }
